@@ -230,4 +230,4 @@ def run_shard(ctx):
         ctx.stats.case(key=r.src, nontrivial=nt, classes=cl, n=1,
                        sample={'src': r.src, 'lang': doc[0], 'ml': doc[1]})
         ctx.stats.extra['formulas'] = ctx.stats.extra.get('formulas', 0) + len(r.forms)
-    hyp_run(ctx, doc_s, one, ctx.n(20000, 400000))
+    hyp_run(ctx, doc_s, one, ctx.n(20000, 200000))
